@@ -525,6 +525,14 @@ func (c *Ctx) c02LengthBookkeeping() {
 		}
 		r.Check(good, "R6", fname(ml)+":20+sum", c.fpos(ml), "Message.Len() = 20 + Σ (*AVP).Len()", "Message.Len() is not HeaderLength plus the sum of the AVPs' padded lengths")
 	}
+	// GroupedAVP.Len = Σ a.Len(): RFC 6733 §4.4 — the AVP Length of a Grouped AVP covers its members including
+	// their padding; the group itself needs none
+	if gl := c.P.Method("diam", "GroupedAVP", "Len"); gl != nil {
+		ok, why := c.lenIsSum(gl, "GroupedAVP", 0)
+		r.Check(ok, "R6", fname(gl)+":sum-of-padded-members", c.fpos(gl), "GroupedAVP.Len() = Σ (*AVP).Len() of its current members (their padding included) on every return", "GroupedAVP.Len() is not the sum of its current members' padded lengths ("+why+"): the AVP Length written for a Grouped AVP is not what RFC 6733 §4.4 prescribes")
+	} else {
+		r.Undecided("R6", "role:GroupedAVP.Len", "-", "GroupedAVP.Len not found")
+	}
 }
 
 func sameAVP(a, b ssa.Value) bool {
